@@ -40,7 +40,7 @@ def run(ctx):
     n_pairs = 0
     try:
         for g in range(50 if q else 1200):
-            nn = rng.randint(1, 5)
+            nn = rng.randint(1, 5) if rng.random() < 0.85 else 0        # also: no named rule at all
             names = ['p:n%d' % i for i in range(1, nn + 1)]
             pid = [0]
             rules = []
@@ -52,7 +52,7 @@ def run(ctx):
                     sk = rng.choice(['password', 'target.secret.creator_id', 'auth_token'])
                     body = ev.Or(body, ev.generic('sk', ev.ph(sk))) if rng.random() < 0.5 else ev.generic('sk', ev.ph(sk))
                 rules.append((n, body))
-            dflt = rng.choice([('opt', None), ('name', names[-1]), ('check', ev.role('r1')), None])
+            dflt = rng.choice([('opt', None), ('name', names[-1] if names else 'p:zz'), ('check', ev.role('r1')), None])
             reg_names = [n for n in names if rng.random() < 0.6]
             registered = [(n, rng.choice([[], [], ['project'], ['system'], ['system', 'project'], ['domain']])) for n in reg_names]
             enforce_scope = rng.random() < 0.8
@@ -74,10 +74,10 @@ def run(ctx):
                 if any('%(password)s' in t or 'secret' in t or 'auth_token' in t for t in (ev.rule_text(b) for _, b in rules)) and rng.random() < 0.8:
                     target = TARGETS[2]
                     creds['sk'] = rng.choice(['pw1', 'u9', 'tok'])
-                by = 'check' if rng.random() < 0.2 else 'name'
+                by = 'check' if rng.random() < (0.2 if names else 0.7) else 'name'
                 base = {'by': by, 'name': qn}
                 if by == 'check':
-                    base['tree'] = dict(rules).get(qn, ev.role('r1'))
+                    base['tree'] = dict(rules).get(qn, rng.choice([ev.role('r1'), ev.T, ev.Or(ev.role('r1'), ev.role('r2'))]))
                 auth = 1 if (by == 'name' and rng.random() < 0.35) else 0
                 credskind = 'bad' if rng.random() < 0.05 else 'map'
                 creds_obj = rng.choice([None, ['roles'], 'creds', 42]) if credskind == 'bad' else None
@@ -89,7 +89,8 @@ def run(ctx):
                 set_debug(debug)
                 outs = []
                 for mode in ({'doraise': 0}, {'doraise': 1}, {'doraise': 1, 'custom': 1, 'xargs': xargs, 'xkw': xkw},
-                             {'doraise': 0, 'custom': 1, 'xargs': xargs, 'xkw': xkw}):
+                             {'doraise': 0, 'custom': 1, 'xargs': xargs, 'xkw': xkw},
+                             {'doraise': 1, 'xargs': xargs if rng.random() < 0.5 else [], 'xkw': xkw or {'action': 'x'}}):
                     call = dict(base, authorize=auth, credskind=credskind, **mode)
                     c = ec.enforce_case(rules, call, target, creds, dflt=dflt, registered=registered, enforce_scope=enforce_scope,
                                         checklog=1, want='c07', creds_obj=creds_obj, extra={'_debug': debug},
@@ -104,7 +105,7 @@ def run(ctx):
                 cases.append(c2)
                 cases.append({'kind': 'same', 'a': {k2: outs[0]['obs'][k2] for k2 in ('o', 'v', 'cls')}, 'b': {k2: c2['obs'][k2] for k2 in ('o', 'v', 'cls')},
                               '_what': 'debug logging on/off', '_call': outs[0]['_call'], '_texts': outs[0]['_texts'], '_creds': outs[0]['_creds'], '_target': outs[0]['_target']})
-                for b in (outs[1], outs[2]):
+                for b in (outs[1], outs[2], outs[4]):
                     cases.append({'kind': 'pair', 'a': outs[0]['obs'], 'b': b['obs'], '_call': b['_call'], '_texts': b['_texts'],
                                   '_creds': b['_creds'], '_target': b['_target'], '_dflt': b['_dflt'], '_registered': b['_registered']})
                     n_pairs += 1
